@@ -69,6 +69,9 @@ func decodeOp(sc *Scenario, r *engine.PRNG, cfg world.InstCfg, tn string, size i
 // with seed base (same keys, zero over non-zero, shorter / longer slices).
 func relatedDecodeOp(sc *Scenario, r *engine.PRNG, cfg world.InstCfg, tn string, base uint64, size int, vocab int) (Op, bool) {
 	op := Op{Kind: "unmarshal", Type: tn, VSeed: base, VSize: size, Vocab: vocab, Mut: r.Next() | 1}
+	if sc.Prop == "C10" && r.Intn(5) == 0 {
+		op.Pat = "raw" // also values plenc normalises: pointer slices whose entries are all nil
+	}
 	d, ok := encodeFor(sc, cfg, &op)
 	if !ok {
 		return op, false
@@ -109,8 +112,27 @@ func GenC19(seed uint64, idx int) *Scenario {
 	sc := &Scenario{Prop: "C19", Seed: seed, Index: idx, Insts: []world.InstCfg{cfg}, PoolSeam: true, PoolBias: 50, SchedSeed: r.Next()}
 	sc.Vocabs = [][]string{makeVocab(&r)}
 	mainType := c19Types[r.Intn(len(c19Types))]
+	big := r.Intn(40) == 0
+	if big {
+		// a long stream with many distinct values: the table grows into the
+		// hundreds (a size cap, eviction or re-hash bug needs that)
+		n := 300 + r.Intn(900)
+		v := make([]string, n)
+		for i := range v {
+			v[i] = fmt.Sprintf("w-%d-%d", i, r.Intn(10))
+		}
+		sc.Vocabs = [][]string{v}
+		mainType = "Sym"
+		if nt > 2 {
+			nt = 2
+		}
+		sc.Note = "big-table"
+	}
 	for t := 0; t < nt; t++ {
 		nops := 3 + r.Intn(6)
+		if big {
+			nops = 150 + r.Intn(250)
+		}
 		var ops []Op
 		for len(ops) < nops {
 			tn := mainType
